@@ -3,3 +3,502 @@ From Coq Require Import List Arith ZArith NArith Bool Lia.
 From SV Require Import C12.Model.
 Import ListNotations.
 Open Scope N_scope.
+
+Ltac case_if := match goal with |- context [if ?c then _ else _] => destruct c eqn:? end.
+
+(** the backends a selection result may stand for *)
+Definition picks (r : pick) : list nat :=
+  match r with POne (Some h) => [h] | POne None => [] | PAmong hs => hs end.
+
+(* ------------------------------------------------------------------ *)
+(** * Every policy returns members of the candidate list it was given *)
+
+Lemma rr_next_in cur cands cur' h :
+  rr_next cur cands = (cur', Some h) -> In h cands.
+Proof.
+  unfold rr_next. destruct cands as [|x t].
+  - intros E; inversion E.
+  - intros E. inversion E as [[E1 E2]]. eapply nth_error_In; eauto.
+Qed.
+
+Lemma least_go_in f l : forall best, In (least_go f best l) (best :: l).
+Proof.
+  induction l as [|h t IH]; intros best; cbn [least_go].
+  - left; reflexivity.
+  - specialize (IH (if f h <? f best then h else best)).
+    destruct (f h <? f best); cbn in IH |- *; intuition.
+Qed.
+
+Lemma least_in f cands h : least f cands = Some h -> In h cands.
+Proof.
+  destruct cands as [|x t]; cbn; intros E; inversion E. apply least_go_in.
+Qed.
+
+Lemma hrw_go_in sc l : forall best, In (hrw_go sc best l) (best :: l).
+Proof.
+  induction l as [|h t IH]; intros best; cbn [hrw_go].
+  - left; reflexivity.
+  - specialize (IH (if sc h <=? sc best then best else h)).
+    destruct (sc h <=? sc best); cbn in IH |- *; intuition.
+Qed.
+
+Lemma hrw_in sc cands h : hrw sc cands = Some h -> In h cands.
+Proof.
+  destruct cands as [|x t]; cbn; intros E; inversion E. apply hrw_go_in.
+Qed.
+
+Definition ok_opt (L : list nat) (o : option (N * nat)) : Prop :=
+  match o with Some (_, h) => In h L | None => True end.
+
+Lemma p2c_step_ok f L a b h :
+  ok_opt L a -> ok_opt L b -> In h L ->
+  ok_opt L (fst (p2c_step f (a, b) h)) /\ ok_opt L (snd (p2c_step f (a, b) h)).
+Proof.
+  intros Ha Hb Hh. unfold p2c_step.
+  destruct a as [[fm fh]|]; destruct b as [[sm sh]|]; cbn [fst snd ok_opt] in *;
+    repeat case_if; cbn [fst snd ok_opt]; auto.
+Qed.
+
+Lemma p2c_fold_ok f L : forall l st,
+  incl l L -> ok_opt L (fst st) -> ok_opt L (snd st) ->
+  ok_opt L (fst (fold_left (p2c_step f) l st)) /\ ok_opt L (snd (fold_left (p2c_step f) l st)).
+Proof.
+  induction l as [|h t IH]; intros [a b] Hi Ha Hb; cbn [fold_left].
+  - split; assumption.
+  - cbn [fst snd] in Ha, Hb.
+    destruct (p2c_step_ok f L a b h Ha Hb) as [H1 H2]. { apply Hi; left; reflexivity. }
+    destruct (p2c_step f (a, b) h) as [a' b'] eqn:E. cbn [fst snd] in H1, H2.
+    apply IH; auto. intros x Hx; apply Hi; right; exact Hx.
+Qed.
+
+Lemma p2c_in f cands : incl (picks (p2c f cands)) cands.
+Proof.
+  unfold p2c.
+  pose proof (p2c_fold_ok f cands cands (None, None) (incl_refl _) I I) as [H1 H2].
+  destruct (fold_left (p2c_step f) cands (None, None)) as [[[fm a]|] [[sm b]|]];
+    cbn [fst snd ok_opt picks] in *; intros x Hx; cbn in Hx; intuition; subst; auto.
+Qed.
+
+Lemma maglev_probe_in mg addr_of cands start : forall fuel i h,
+  maglev_probe mg addr_of cands start i fuel = Some h -> In h cands.
+Proof.
+  induction fuel as [|f IH]; intros i h; cbn [maglev_probe].
+  - intros E; inversion E.
+  - destruct (nth (N.to_nat ((start + N.of_nat i) mod m_size mg)) (m_table mg) None) as [idx|].
+    + destruct (nth_error (m_addrs mg) idx) as [a|].
+      * destruct (find (fun h0 => addr_of h0 =? a) cands) as [h0|] eqn:F.
+        -- intros E; inversion E; subst. apply find_some in F. tauto.
+        -- apply IH.
+      * apply IH.
+    + apply IH.
+Qed.
+
+Lemma rr_picks cur cands cur' r :
+  rr_next cur cands = (cur', r) -> incl (picks (POne r)) cands.
+Proof.
+  intros E x Hx. destruct r as [h|]; cbn in Hx; [|tauto].
+  destruct Hx as [<-|[]]. eapply rr_next_in; eauto.
+Qed.
+
+Lemma lb_next_in s p key cands :
+  incl (picks (snd (lb_next s p key cands))) cands.
+Proof.
+  destruct p as [cur| |m|m|cur|mg cur|built addrs cur]; cbn [lb_next].
+  - destruct (rr_next cur cands) as [cur' r] eqn:E. cbn [snd]. eapply rr_picks; eauto.
+  - cbn [snd]. destruct cands; cbn; auto using incl_refl.
+  - cbn [snd]. destruct (least _ cands) as [h|] eqn:E; cbn; intros x Hx; cbn in Hx; [|tauto].
+    destruct Hx as [<-|[]]. eapply least_in; eauto.
+  - cbn [snd]. apply p2c_in.
+  - destruct key as [k|].
+    + cbn [snd]. destruct (hrw _ cands) as [h|] eqn:E; cbn; intros x Hx; cbn in Hx; [|tauto].
+      destruct Hx as [<-|[]]. eapply hrw_in; eauto.
+    + destruct (rr_next cur cands) as [cur' r] eqn:E. cbn [snd]. eapply rr_picks; eauto.
+  - destruct key as [k|].
+    + destruct cands as [|c0 ct] eqn:EC; [cbn; intros x []|]. rewrite <- EC.
+      match goal with |- context [match m_table ?M with [] => _ | _ => _ end] => set (mg1 := M) end.
+      destruct (m_table mg1) as [|e0 et] eqn:ET; [cbn; intros x []|].
+      destruct (maglev_probe mg1 _ cands _ 0 _) as [h|] eqn:EP; cbn [snd].
+      * intros x Hx. cbn in Hx. destruct Hx as [<-|[]]. eapply maglev_probe_in; eauto.
+      * destruct (nth_error cands _) as [h|] eqn:EN; cbn; intros x Hx; cbn in Hx; [|tauto].
+        destruct Hx as [<-|[]]. eapply nth_error_In; eauto.
+    + destruct (rr_next cur cands) as [cur' r] eqn:E. cbn [snd]. eapply rr_picks; eauto.
+  - destruct key as [k|].
+    + destruct cands as [|c0 ct] eqn:EC; [cbn; intros x []|]. rewrite <- EC.
+      destruct built; cbn; auto using incl_refl.
+    + destruct (rr_next cur cands) as [cur' r] eqn:E. cbn [snd]. eapply rr_picks; eauto.
+Qed.
+
+(* ------------------------------------------------------------------ *)
+(** * The candidate cascade *)
+
+Definition bk (s : state) (h : nat) : backend := hget (s_heap s) h.
+
+(** the eligibility predicate of the property statement *)
+Definition eligible (s : state) (l : list nat) (h : nat) : Prop :=
+  In h l /\ b_status (bk s h) = Normal /\
+  (can_open (s_now s) (bk s h) = true \/
+   ((forall h', In h' l -> can_open (s_now s) (bk s h') = false) /\
+    fail_open_ok (s_now s) (bk s h) = true)).
+
+Lemma status_eqb_eq a b : status_eqb a b = true -> a = b.
+Proof. destruct a, b; cbn; congruence. Qed.
+
+Lemma can_open_normal now b : can_open now b = true -> b_status b = Normal.
+Proof.
+  unfold can_open. destruct (negb (b_healthy b)); [discriminate|].
+  intros H. apply andb_prop in H. apply status_eqb_eq; tauto.
+Qed.
+
+Lemma fail_open_normal now b : fail_open_ok now b = true -> b_status b = Normal.
+Proof. unfold fail_open_ok. intros H. apply andb_prop in H. apply status_eqb_eq; tauto. Qed.
+
+Lemma available_spec s l backup h :
+  In h (available s l backup) <->
+  In h l /\ b_backup (bk s h) = backup /\ can_open (s_now s) (bk s h) = true.
+Proof.
+  unfold available, bk. rewrite filter_In, andb_true_iff, eqb_true_iff. tauto.
+Qed.
+
+Lemma none_available s l :
+  available s l false = [] -> available s l true = [] ->
+  forall h, In h l -> can_open (s_now s) (bk s h) = false.
+Proof.
+  intros H0 H1 h Hh. destruct (can_open (s_now s) (bk s h)) eqn:E; [|reflexivity].
+  exfalso. destruct (b_backup (bk s h)) eqn:B.
+  - assert (In h (available s l true)) by (apply available_spec; auto). rewrite H1 in H; inversion H.
+  - assert (In h (available s l false)) by (apply available_spec; auto). rewrite H0 in H; inversion H.
+Qed.
+
+Lemma candidates_eligible s l h : In h (candidates s l) -> eligible s l h.
+Proof.
+  unfold candidates, eligible.
+  destruct (available s l false) as [|p0 pt] eqn:E0.
+  - destruct (available s l true) as [|q0 qt] eqn:E1.
+    + intros H. apply filter_In in H. destruct H as [Hl Hf]. fold (bk s h) in Hf.
+      repeat split; auto.
+      * eapply fail_open_normal; eauto.
+      * right. split; auto. apply none_available; auto.
+    + rewrite <- E1. intros H. apply available_spec in H. destruct H as (Hl & _ & Hc).
+      repeat split; auto. eapply can_open_normal; eauto.
+  - rewrite <- E0. intros H. apply available_spec in H. destruct H as (Hl & _ & Hc).
+    repeat split; auto. eapply can_open_normal; eauto.
+Qed.
+
+(** a backup that can open is only offered when no primary can *)
+Lemma candidates_backup s l h :
+  In h (candidates s l) -> b_backup (bk s h) = true -> can_open (s_now s) (bk s h) = true ->
+  forall p, In p l -> b_backup (bk s p) = false -> can_open (s_now s) (bk s p) = false.
+Proof.
+  unfold candidates. intros H Hb Hc p Hp Hpb.
+  destruct (available s l false) as [|p0 pt] eqn:E0.
+  - destruct (can_open (s_now s) (bk s p)) eqn:E; [|reflexivity].
+    assert (In p (available s l false)) by (apply available_spec; auto). rewrite E0 in H0; inversion H0.
+  - rewrite <- E0 in H. apply available_spec in H. destruct H as (_ & Hf & _). congruence.
+Qed.
+
+Lemma select_picks s c key :
+  incl (picks (snd (select s c key))) (candidates s (c_list (cget s c))).
+Proof.
+  unfold select. destruct (candidates s (c_list (cget s c))) as [|c0 ct] eqn:E.
+  - cbn. intros x [].
+  - rewrite <- E.
+    pose proof (lb_next_in s (c_lb (cget s c)) key (candidates s (c_list (cget s c)))) as H.
+    destruct (lb_next s (c_lb (cget s c)) key (candidates s (c_list (cget s c)))) as [p' r].
+    exact H.
+Qed.
+
+Lemma selected_is_eligible_lemma s c key h :
+  In h (picks (snd (select s c key))) -> eligible s (c_list (cget s c)) h.
+Proof. intros H. apply candidates_eligible. eapply select_picks; eauto. Qed.
+
+Lemma backup_only_when_no_primary_lemma s c key h :
+  In h (picks (snd (select s c key))) ->
+  b_backup (bk s h) = true -> can_open (s_now s) (bk s h) = true ->
+  forall p, In p (c_list (cget s c)) -> b_backup (bk s p) = false -> can_open (s_now s) (bk s p) = false.
+Proof. intros H. eapply candidates_backup. eapply select_picks; eauto. Qed.
+
+(** a selection returns nobody only when nobody is even fail-open eligible *)
+Lemma rr_next_some cur x t : exists h, snd (rr_next cur (x :: t)) = Some h.
+Proof.
+  unfold rr_next. cbn [snd].
+  destruct (nth_error (x :: t) (N.to_nat (cur mod N.of_nat (length (x :: t))))) as [h|] eqn:E; eauto.
+  exfalso. apply nth_error_None in E.
+  assert (cur mod N.of_nat (length (x :: t)) < N.of_nat (length (x :: t))).
+  { apply N.mod_lt. cbn [length]. lia. }
+  lia.
+Qed.
+
+(* ------------------------------------------------------------------ *)
+(** * Sticky sessions *)
+
+Lemma sticky_wins_lemma s c sid h :
+  find (fun h => optN_eqb (b_sticky (bk s h)) sid) (c_list (cget s c)) = Some h ->
+  can_open (s_now s) (bk s h) = true ->
+  find_sticky s c sid = Some h.
+Proof. unfold find_sticky, bk. intros -> ->. reflexivity. Qed.
+
+Lemma sticky_sound_lemma s c sid h :
+  find_sticky s c sid = Some h ->
+  In h (c_list (cget s c)) /\ b_sticky (bk s h) = Some sid /\ can_open (s_now s) (bk s h) = true.
+Proof.
+  unfold find_sticky, bk.
+  destruct (find _ (c_list (cget s c))) as [h0|] eqn:F; [|discriminate].
+  destruct (can_open (s_now s) (hget (s_heap s) h0)) eqn:C; [|discriminate].
+  intros E; inversion E; subst. apply find_some in F. destruct F as [Hi Hs].
+  repeat split; auto. unfold optN_eqb in Hs.
+  destruct (b_sticky (hget (s_heap s) h)) as [x|]; [|discriminate].
+  apply N.eqb_eq in Hs. congruence.
+Qed.
+
+(* ------------------------------------------------------------------ *)
+(** * Back-off windows *)
+
+Lemma backoff_window_lemma r t w t' :
+  can_try r t = true -> t <= t' -> t' < t + w ->
+  can_try (retry_fail r t w) t' = false.
+Proof.
+  unfold can_try, retry_fail. intros H Ht Hw.
+  apply N.leb_le in H.
+  assert (E : (t - r_last r <? r_wait r) = false) by (apply N.ltb_ge; lia).
+  rewrite E. cbn [r_wait r_last]. apply N.leb_gt. lia.
+Qed.
+
+Lemma backoff_window_ends r t w t' :
+  can_try r t = true -> t + w <= t' ->
+  can_try (retry_fail r t w) t' = true.
+Proof.
+  unfold can_try, retry_fail. intros H Hw.
+  apply N.leb_le in H.
+  assert (E : (t - r_last r <? r_wait r) = false) by (apply N.ltb_ge; lia).
+  rewrite E. cbn [r_wait r_last]. apply N.leb_le. lia.
+Qed.
+
+Lemma fail_in_window_noop r t w : can_try r t = false -> retry_fail r t w = r.
+Proof.
+  unfold can_try, retry_fail. intros H. apply N.leb_gt in H.
+  assert (E : (t - r_last r <? r_wait r) = true) by (apply N.ltb_lt; lia).
+  rewrite E. reflexivity.
+Qed.
+
+Lemma tries_saturate r t w :
+  r_tries r <= r_max r ->
+  r_tries (retry_fail r t w) <= r_max (retry_fail r t w) /\ r_max (retry_fail r t w) = r_max r /\
+  (can_try r t = true -> r_tries (retry_fail r t w) = N.min (r_tries r + 1) (r_max r)).
+Proof.
+  unfold retry_fail, can_try. intros H. destruct (t - r_last r <? r_wait r) eqn:E; cbn [r_tries r_max].
+  - repeat split; auto. intros C. apply N.leb_le in C. apply N.ltb_lt in E. lia.
+  - repeat split; auto. lia.
+Qed.
+
+Lemma can_open_in_window now b : can_try (b_retry b) now = false -> can_open now b = false.
+Proof.
+  unfold can_open. intros ->. destruct (negb (b_healthy b)); [reflexivity|]. apply andb_false_r.
+Qed.
+
+(* ------------------------------------------------------------------ *)
+(** * Connection counters of one (shared) backend *)
+
+Inductive cop := CInc | CDec | CClosing.
+
+(** the backend and the number of connections actually open on it: [inc]
+    opens one iff it answers [Some]; the holder of a connection closes it once *)
+Definition cstep (st : backend * N) (o : cop) : backend * N :=
+  let '(b, g) := st in
+  match o with
+  | CInc => let '(b', r) := inc_connections b in (b', match r with Some _ => g + 1 | None => g end)
+  | CDec => (fst (dec_connections b), g - 1)
+  | CClosing => (set_status b Closing, g)
+  end.
+
+(** discipline of the callers: only a held connection is closed *)
+Fixpoint disciplined (st : backend * N) (ops : list cop) : Prop :=
+  match ops with
+  | [] => True
+  | o :: t => (o = CDec -> 0 < snd st) /\ disciplined (cstep st o) t
+  end.
+
+Definition cinv (st : backend * N) : Prop :=
+  b_conns (fst st) = snd st /\ (b_status (fst st) = Closed -> b_conns (fst st) = 0).
+
+Lemma cstep_inv st o : cinv st -> (o = CDec -> 0 < snd st) -> cinv (cstep st o).
+Proof.
+  destruct st as [b g]. unfold cinv. cbn [fst snd]. intros [Hc Hz] Hd.
+  destruct o; cbn [cstep].
+  - unfold inc_connections. destruct (b_status b) eqn:S; cbn [fst snd b_conns b_status set_conns].
+    + split; [lia|discriminate].
+    + split; [assumption|]. rewrite S. discriminate.
+    + split; [assumption|]. rewrite S. auto.
+  - specialize (Hd eq_refl). unfold dec_connections.
+    destruct (b_status b) eqn:S; cbn [fst snd b_conns b_status set_conns].
+    + assert (E : (0 <? b_conns b) = true) by (apply N.ltb_lt; lia). rewrite E.
+      cbn [fst snd b_conns b_status set_conns]. split; [lia|discriminate].
+    + assert (E : (0 <? b_conns b) = true) by (apply N.ltb_lt; lia). rewrite E.
+      destruct (b_conns b - 1 =? 0) eqn:Z; cbn [fst snd b_conns b_status set_conns].
+      * apply N.eqb_eq in Z. split; [lia|intros _; lia].
+      * split; [lia|discriminate].
+    + specialize (Hz eq_refl). lia.
+  - cbn [fst snd b_conns b_status set_status]. split; [assumption|discriminate].
+Qed.
+
+Lemma counters_balance_lemma : forall ops st,
+  cinv st -> disciplined st ops ->
+  cinv (fold_left cstep ops st).
+Proof.
+  induction ops as [|o t IH]; intros st Hi Hd; cbn [fold_left]; [assumption|].
+  destruct Hd as [Hd Ht]. apply IH; auto. apply cstep_inv; auto.
+Qed.
+
+(** Closing becomes Closed exactly when the count reaches 0 *)
+Lemma closing_retires_at_zero b :
+  b_status b = Closing ->
+  (b_status (fst (dec_connections b)) = Closed <-> b_conns (fst (dec_connections b)) = 0) /\
+  (b_status (fst (dec_connections b)) = Closed \/ b_status (fst (dec_connections b)) = Closing).
+Proof.
+  intros S. unfold dec_connections. rewrite S.
+  destruct ((if 0 <? b_conns b then b_conns b - 1 else b_conns b) =? 0) eqn:Z;
+    cbn [fst b_status b_conns set_conns].
+  - apply N.eqb_eq in Z. split; [tauto|auto].
+  - apply N.eqb_neq in Z. split; [|auto]. split; [discriminate|tauto].
+Qed.
+
+(** an unmatched decrement never wraps *)
+Lemma dec_never_underflows b :
+  b_conns (fst (dec_connections b)) = b_conns b - 1 \/ b_conns (fst (dec_connections b)) = b_conns b.
+Proof.
+  unfold dec_connections. destruct (b_status b); cbn [fst b_conns set_conns]; auto;
+    destruct (0 <? b_conns b) eqn:E; try (destruct (_ =? 0)); cbn [fst b_conns set_conns]; auto.
+Qed.
+
+(** a backend that is not Normal takes no new connection *)
+Lemma inc_refused_unless_normal b :
+  b_status b <> Normal -> inc_connections b = (b, None).
+Proof. unfold inc_connections. destruct (b_status b); congruence. Qed.
+
+(* ------------------------------------------------------------------ *)
+(** * Affinity: HRW and Maglev map one key to one backend *)
+
+Definition same_on (s s' : state) (cands : list nat) : Prop :=
+  s_scores s = s_scores s' /\
+  forall h, In h cands -> b_addr (bk s h) = b_addr (bk s' h) /\ b_weight (bk s h) = b_weight (bk s' h).
+
+Lemma hrw_go_ext sc sc' l : forall best,
+  (forall h, In h (best :: l) -> sc h = sc' h) -> hrw_go sc best l = hrw_go sc' best l.
+Proof.
+  induction l as [|x t IH]; intros best H; cbn [hrw_go]; [reflexivity|].
+  rewrite (H x) by (right; left; reflexivity). rewrite (H best) by (left; reflexivity).
+  apply IH. intros h [<-|Hh].
+  - destruct (sc' x <=? sc' best); apply H; cbn; auto.
+  - apply H; cbn; auto.
+Qed.
+
+Lemma find_ext_in {A} (f g : A -> bool) l : (forall x, In x l -> f x = g x) -> find f l = find g l.
+Proof.
+  induction l as [|x t IH]; intros H; cbn [find]; [reflexivity|].
+  rewrite (H x) by (left; reflexivity). destruct (g x); [reflexivity|]. apply IH. intros; apply H; right; auto.
+Qed.
+
+Lemma maglev_probe_ext mg a a' cands start : (forall h, In h cands -> a h = a' h) ->
+  forall fuel i, maglev_probe mg a cands start i fuel = maglev_probe mg a' cands start i fuel.
+Proof.
+  intros H. induction fuel as [|f IH]; intros i; cbn [maglev_probe]; [reflexivity|].
+  destruct (nth _ (m_table mg) None) as [idx|]; [|apply IH].
+  destruct (nth_error (m_addrs mg) idx) as [ad|]; [|apply IH].
+  rewrite (find_ext_in (fun h => a h =? ad) (fun h => a' h =? ad)).
+  - destruct (find _ cands); [reflexivity|apply IH].
+  - intros x Hx. rewrite (H x Hx). reflexivity.
+Qed.
+
+(** the policies whose keyed selection is a pure function of (key, candidates) *)
+Definition affine (p : policy) : Prop :=
+  match p with
+  | PHrw _ => True
+  | PMaglev mg _ => m_table mg <> []
+  | _ => False
+  end.
+
+Lemma affinity_stable_lemma s s' p k cands :
+  affine p -> same_on s s' cands ->
+  lb_next s p (Some k) cands = lb_next s' p (Some k) cands /\
+  fst (lb_next s p (Some k) cands) = p.
+Proof.
+  intros Ha [Hs Hh]. destruct p as [cur| |m|m|cur|mg cur|built addrs cur]; cbn in Ha; try tauto.
+  - cbn [lb_next fst]. split; [|reflexivity]. f_equal. f_equal.
+    destruct cands as [|c0 ct]; [reflexivity|]. cbn [hrw]. f_equal.
+    apply hrw_go_ext. intros h Hin. unfold bk in Hh. destruct (Hh h Hin) as [-> ->]. rewrite Hs. reflexivity.
+  - cbn [lb_next]. destruct cands as [|c0 ct] eqn:EC; [split; reflexivity|]. rewrite <- EC in *.
+    destruct (m_table mg) as [|e0 et] eqn:ET; [congruence|].
+    rewrite ET.
+    rewrite (maglev_probe_ext mg (fun h => b_addr (hget (s_heap s) h)) (fun h => b_addr (hget (s_heap s') h)) cands).
+    + destruct (maglev_probe mg _ cands (k mod m_size mg) 0 (N.to_nat (m_size mg))); split; reflexivity.
+    + intros h Hin. apply (Hh h Hin).
+Qed.
+
+(* ------------------------------------------------------------------ *)
+(** * The Maglev table *)
+
+Definition entry_ok (n : nat) (e : option nat) : Prop :=
+  match e with Some i => (i < n)%nat | None => True end.
+
+Lemma upd_length {A} (l : list A) : forall i v, length (upd l i v) = length l.
+Proof. induction l as [|x t IH]; intros [|i] v; cbn; auto. Qed.
+
+Lemma Forall_upd {A} (P : A -> Prop) (l : list A) : forall i v, Forall P l -> P v -> Forall P (upd l i v).
+Proof.
+  induction l as [|x t IH]; intros [|i] v H Hv; cbn; auto; inversion H; subst; constructor; auto.
+Qed.
+
+Definition tbl_ok (n : nat) (len : nat) (p : pop) : Prop :=
+  length (p_table p) = len /\ Forall (entry_ok n) (p_table p).
+
+Lemma pop_pass_ok offs skips targets m n len : forall bs p,
+  (forall b, In b bs -> (b < n)%nat) -> tbl_ok n len p -> tbl_ok n len (pop_pass offs skips targets m bs p).
+Proof.
+  induction bs as [|b rest IH]; intros p Hb Hp; cbn [pop_pass]; [assumption|].
+  destruct (m <=? p_count p); [assumption|].
+  destruct (nth b targets 0 <=? nth b (p_filled p) 0).
+  - apply IH; auto. intros; apply Hb; right; auto.
+  - destruct (find_free _ _ _ _ _ _) as [[j c]|]; [|assumption].
+    apply IH. { intros; apply Hb; right; auto. }
+    destruct Hp as [Hl Hf]. split; cbn [p_table].
+    + rewrite upd_length; assumption.
+    + apply Forall_upd; auto. cbn. apply Hb; left; reflexivity.
+Qed.
+
+Lemma pop_loop_ok offs skips targets m n len bs : forall fuel p,
+  (forall b, In b bs -> (b < n)%nat) -> tbl_ok n len p -> tbl_ok n len (pop_loop offs skips targets m bs p fuel).
+Proof.
+  induction fuel as [|f IH]; intros p Hb Hp; cbn [pop_loop]; [assumption|].
+  destruct (m <=? p_count p); [assumption|]. apply IH; auto. apply pop_pass_ok; auto.
+Qed.
+
+Lemma Forall_repeat {A} (P : A -> Prop) x n : P x -> Forall P (repeat x n).
+Proof. intros H. induction n; cbn; constructor; auto. Qed.
+
+(** after any rebuild: the table is empty or exactly [size] long, and every
+    filled slot indexes the address list captured by the same rebuild *)
+Lemma maglev_rebuild_valid hashes size aw :
+  let mg := maglev_rebuild hashes size aw in
+  m_size mg = size /\
+  (m_table mg = [] \/ (length (m_table mg) = N.to_nat size /\ m_addrs mg = map fst aw)) /\
+  Forall (entry_ok (length (m_addrs mg))) (m_table mg).
+Proof.
+  unfold maglev_rebuild.
+  destruct ((length aw =? 0)%nat || (size =? 0)) eqn:E; cbn [m_size m_table m_addrs].
+  - repeat split; auto.
+  - match goal with |- context [pop_loop ?o ?sk ?tg ?m ?bs ?p0 ?f] =>
+      pose proof (pop_loop_ok o sk tg m (length aw) (N.to_nat size) bs f p0) as H end.
+    destruct H as [Hl Hf].
+    + intros b Hb. apply in_seq in Hb. lia.
+    + split; cbn [p_table]; [apply repeat_length|]. apply Forall_repeat. exact I.
+    + repeat split; auto. rewrite map_length. exact Hf.
+Qed.
+
+(** the lookup never indexes outside the captured addresses, and what it
+    returns is one of the candidates it was handed (never a removed backend) *)
+Lemma maglev_lookup_total mg a cands start fuel i :
+  maglev_probe mg a cands start i fuel = None \/
+  exists h, maglev_probe mg a cands start i fuel = Some h /\ In h cands.
+Proof.
+  destruct (maglev_probe mg a cands start i fuel) as [h|] eqn:E; [right|left; reflexivity].
+  exists h. split; [reflexivity|]. eapply maglev_probe_in; eauto.
+Qed.
